@@ -214,9 +214,10 @@ def extract():
         c = " ".join(body.split())
         if re.search(TIMER, c): return False
         ts = re.findall(r"\btimeout\(\s*(\w+)", c)
-        return len(ts) == allowed_timeouts and all(t == "dur" for t in ts)
+        bound = set(re.findall(r"if let Some\((\w+)\) = (?:read|write)_timeout", c))
+        return len(ts) == allowed_timeouts and all(t in bound for t in ts)
     aconn = fn_body(asrc, "handle_connection")
-    a_ok = quiet(aconn, 3) and len(re.findall(r"if let Some\(dur\) = (?:read|write)_timeout", " ".join(aconn.split()))) == 2
+    a_ok = quiet(aconn, 3) and len(re.findall(r"if let Some\(\w+\) = (?:read|write)_timeout", " ".join(aconn.split()))) == 2
     f["serveLoopsHaveNoExtraTimers"] = bool(quiet(srv_conn, 0) and a_ok and quiet(nx, 0) and quiet(fn_body(router, "get"), 0)
                                             and quiet(fn_body(src, "dispatch_struct_segments"), 0))
     # the trait default itself
